@@ -1,3 +1,3 @@
 #!/bin/bash
 # Runs the repository's pinned test suite (guard off; there are no hooks) and prints the summary line.
-cd "${1:-/repo}" && /venv/bin/python -m pytest -ra -q -p no:cacheprovider --timeout=900 --continue-on-collection-errors -x -q 2>&1 | tail -5
+cd "${1:-/repo}" && /venv/bin/python -m pytest -q -p no:cacheprovider --timeout=900 --continue-on-collection-errors 2>&1 | grep -E "passed|failed|error" | tail -5
